@@ -64,7 +64,7 @@ func extract(ex utils.SourceExtractor, mutate func(r *http.Request)) (tok string
 
 func Run(tier string, sh lib.Shard, rep *lib.Report) {
 	rep.Rule = "exhaustive enumeration: IPv4 quads over {0,1,10,127,255}^4 x 3 ports, 6 IPv6 addresses x 3 zone forms x 3 ports (in the bracketed form net/http produces), every string of length <= 5 over {1 a : [ ] . %} as malformed input, all pairs of well-formed addresses for the iff test, Host values, header name/value case variants, variable names incl. misspellings; non-trivial = distinct well-formed addresses + distinct accepted/refused variables"
-	rep.Require("wellformed_addresses", "ipv6_addresses", "pairs_compared", "malformed_strings", "variables_refused", "header_cases")
+	rep.Require("wellformed_addresses", "ipv6_addresses", "pairs_compared", "malformed_strings", "variables_refused", "header_cases", "header_values_bytewise")
 	what := func(kind string, in any) map[string]any {
 		return map[string]any{"engine": "enum", "part": "c19", "kind": kind, "input": in}
 	}
@@ -209,6 +209,32 @@ func Run(tier string, sh lib.Shard, rep *lib.Report) {
 				if p != nil || err != nil || tok != want || amount != 1 {
 					rep.Violate("C19:request.header:wrong-token", fmt.Sprintf("extractor request.header.%s, header %q=%q: token %q amount %d err %v", name, sent, vals, tok, amount, err), what("header", []any{name, sent, vals}))
 				}
+			}
+		}
+	}
+	// 5b. the token is the header's value BYTE FOR BYTE: every one- and two-byte sequence of the bytes a field value
+	// may carry (HTAB, SP, visible ASCII, and 0x80-0xFF - Latin-1 text, raw binary keys, valid and invalid UTF-8
+	// alike) between two fixed letters
+	if bx, err := utils.NewExtractor("request.header.X-Key"); err == nil {
+		var legal []byte
+		for b := 0; b < 256; b++ {
+			if b == '\t' || (b >= ' ' && b != 0x7f) {
+				legal = append(legal, byte(b))
+			}
+		}
+		check := func(mid []byte) {
+			v := "k" + string(mid) + "z"
+			tok, amount, err, p := extract(bx, func(r *http.Request) { r.Header["X-Key"] = []string{v} })
+			rep.Evaluations++
+			rep.Count("header_values_bytewise")
+			if p != nil || err != nil || tok != v || amount != 1 {
+				rep.Violate("C19:request.header:token-not-byte-exact", fmt.Sprintf("extractor request.header.X-Key, header value %q: token %q amount %d err %v panic %v", v, tok, amount, err, p), what("header_value", fmt.Sprintf("%x", v)))
+			}
+		}
+		for _, b1 := range legal {
+			check([]byte{b1})
+			for _, b2 := range legal {
+				check([]byte{b1, b2})
 			}
 		}
 	}
